@@ -228,7 +228,8 @@ let () =
       with Not_found -> failwith (Printf.sprintf "the model asks blobsAreClose for a pair the implementation's sizesAreClose rejects (sizes %d %d)"
                                     (int_of_z d.e_size) (int_of_z a.e_size)) in
     let lookup_dist d a = try Hashtbl.find dist_tab (int_of_n d.e_name, int_of_n a.e_name)
-      with Not_found -> failwith "no recorded name distance for a candidate pair" in
+      with Not_found -> failwith (Printf.sprintf "the model takes a pair as candidates that the implementation's sizesAreClose rejects (sizes %d %d)"
+                                    (int_of_z d.e_size) (int_of_z a.e_size)) in
     let close_a me cand = fst (lookup_close me cand) in        (* matchA: blobsAreClose(deleted, added) *)
     let close_b me cand = snd (lookup_close cand me) in        (* matchB: blobsAreClose(added, deleted) *)
     let order dist me (cands : (nat * entry) list) : nat list =
